@@ -9,6 +9,7 @@ import CM.Ops.Doc
 import CM.Ops.Format
 import CM.Ops.Blocks
 import CM.Ops.Inline
+import CM.Ops.TailHyp
 namespace CM.Ops
 
 def echoOp : Op
@@ -21,6 +22,6 @@ def treeOp : Op
     | none => bad
   | _ => bad
 
-def allOps : List (String × Op) := [("echo", echoOp), ("tree", treeOp)] ++ recognizeOps ++ checkOps ++ walkOps ++ renderOps ++ emphOps ++ refsOps ++ docOps ++ formatOps ++ blocksOps ++ inlineOps ++ parseOps
+def allOps : List (String × Op) := [("echo", echoOp), ("tree", treeOp)] ++ recognizeOps ++ checkOps ++ walkOps ++ renderOps ++ emphOps ++ refsOps ++ docOps ++ formatOps ++ blocksOps ++ inlineOps ++ parseOps ++ tailOps
 
 end CM.Ops
